@@ -104,6 +104,7 @@ _OPN = {
 }
 
 
+
 def binop(interp, op, a, b, node):
     I = _I()
     name = _OPN.get(type(op))
@@ -126,6 +127,8 @@ def binop(interp, op, a, b, node):
         # numpy semantics: list * array
         a = as_tens(a) if isinstance(a, (list, tuple)) else a
         b = as_tens(b) if isinstance(b, (list, tuple)) else b
+    if name == "matmul":
+        return REG["jnp.matmul"](interp, [a, b], {}, node)
     if isinstance(a, Tens) or isinstance(b, Tens):
         return T.ewise(lambda x, y: _scalar_binop(interp, name, x, y, node, force_poly=True), as_tens(_tp(a)), as_tens(_tp(b)))
     return _scalar_binop(interp, name, a, b, node)
@@ -1158,6 +1161,131 @@ def _diag(it, a, k, node):
         n = min(t.shape)
         return Tens((n,), [t.at((i, i)) for i in range(n)])
     raise ShapeError("diag input must be 1- or 2-d")
+
+
+def _tri(keep):
+    def f(it, a, k, node):
+        t = _arr(a[0])
+        kk = _I()._static_int(k.get("k", a[1] if len(a) > 1 else 0))
+        if t.ndim < 2 or is_sym(t.shape[-1]) or is_sym(t.shape[-2]):
+            raise Unsupported("triu/tril of an array whose last two axes are not concrete")
+        data = []
+        for idx in t.cidx():
+            i, j = idx[-2], idx[-1]
+            data.append(t.at(idx) if keep(i, j, kk) else Poly())
+        return Tens(t.shape, data, t.meta)
+
+    return f
+
+
+REG["jnp.triu"] = _tri(lambda i, j, k: j - i >= k)
+REG["jnp.tril"] = _tri(lambda i, j, k: j - i <= k)
+
+
+@reg("jnp.trace")
+def _trace(it, a, k, node):
+    t = _arr(a[0])
+    if t.ndim != 2 or t.has_sym():
+        raise Unsupported("trace of a non-matrix")
+    return Tens.scalar(_sum_fold([t.at((i, i)) for i in range(min(t.shape))]))
+
+
+@reg("jnp.outer")
+def _outer(it, a, k, node):
+    x, y = _arr(a[0]), _arr(a[1])
+    if x.ndim != 1 or y.ndim != 1 or x.has_sym() or y.has_sym():
+        raise Unsupported("outer of non-vectors")
+    return Tens((x.shape[0], y.shape[0]), [p * q for p in x.data for q in y.data])
+
+
+@reg("jnp.cross")
+def _cross(it, a, k, node):
+    x, y = _arr(a[0]), _arr(a[1])
+    axis = _axis(k, -1)
+    if axis not in (-1, x.ndim - 1, 0):
+        raise Unsupported("cross along an inner axis")
+    if axis == 0:
+        xs = [T.getitem(x, i) for i in range(3)]
+        ys = [T.getitem(y, i) for i in range(3)]
+        m = lambda p, q: T.ewise(lambda u, v: u * v, p, q)
+        sub = lambda p, q: T.ewise(lambda u, v: u - v, p, q)
+        return T.stack([sub(m(xs[1], ys[2]), m(xs[2], ys[1])), sub(m(xs[2], ys[0]), m(xs[0], ys[2])), sub(m(xs[0], ys[1]), m(xs[1], ys[0]))], 0)
+    raise Unsupported("cross along the last axis")
+
+
+@reg("jnp.flip")
+def _flip(it, a, k, node):
+    t = _arr(a[0])
+    axis = _axis(k, a[1] if len(a) > 1 else None)
+    axes = range(t.ndim) if axis is None else ([axis % t.ndim] if isinstance(axis, int) else [x % t.ndim for x in axis])
+    for ax in axes:
+        if is_sym(t.shape[ax]):
+            it.event("grid-axis-reordering", node, "flip")
+            raise Unsupported("flip along a symbolic (grid) axis")
+    data = []
+    for idx in t.cidx():
+        src = [(t.shape[ax] - 1 - i) if (ax in axes and not is_sym(t.shape[ax])) else i for ax, i in enumerate(idx)]
+        data.append(t.at(src))
+    return Tens(t.shape, data, t.meta)
+
+
+@reg("jnp.roll")
+def _roll(it, a, k, node):
+    t = _arr(a[0])
+    shift = _I()._static_int(a[1] if len(a) > 1 else k["shift"])
+    axis = _axis(k, a[2] if len(a) > 2 else None)
+    if axis is None or is_sym(t.shape[axis % t.ndim]):
+        it.event("grid-axis-reordering", node, "roll")
+        raise Unsupported("roll along a symbolic (grid) axis")
+    ax = axis % t.ndim
+    n = t.shape[ax]
+    data = []
+    for idx in t.cidx():
+        src = list(idx)
+        src[ax] = (idx[ax] - shift) % n
+        data.append(t.at(src))
+    return Tens(t.shape, data, t.meta)
+
+
+@reg("jnp.cumsum")
+def _cumsum(it, a, k, node):
+    t = _arr(a[0])
+    axis = _axis(k, a[1] if len(a) > 1 else None)
+    if axis is None or is_sym(t.shape[axis % t.ndim]):
+        raise Unsupported("cumsum along a symbolic axis")
+    ax = axis % t.ndim
+    data = []
+    for idx in t.cidx():
+        tot = Poly()
+        for j in range(idx[ax] + 1):
+            src = list(idx)
+            src[ax] = j
+            tot = tot + t.at(src)
+        data.append(tot)
+    return Tens(t.shape, data, t.meta)
+
+
+@reg("jnp.matmul")
+def _matmul(it, a, k, node):
+    x, y = _arr(a[0]), _arr(a[1])
+    if x.ndim == 2 and y.ndim == 2:
+        return T.einsum("ij,jk->ik", x, y)
+    if x.ndim == 2 and y.ndim == 1:
+        return T.einsum("ij,j->i", x, y)
+    if x.ndim == 1 and y.ndim == 2:
+        return T.einsum("i,ij->j", x, y)
+    raise Unsupported("matmul of higher-rank arrays")
+
+
+@reg("jnp.isscalar")
+def _isscalar(it, a, k, node):
+    return not isinstance(a[0], (Tens, list, tuple))
+
+
+@reg("jnp.atleast_1d")
+def _atleast1d(it, a, k, node):
+    t = _arr(a[0])
+    return t if t.ndim >= 1 else Tens((1,), t.data, t.meta)
 
 
 @reg("jnp.eye", "jnp.identity")
